@@ -115,9 +115,16 @@ func sealMain(args []string) {
 	enc := json.NewEncoder(bw)
 	w := newSealWorld(enc)
 	total := 0
-	for _, cs := range []bool{false, true} {
-		v := w.honest(cs, fmt.Sprint(cs))
-		other := w.honest(cs, "other"+fmt.Sprint(cs))
+	// every mutation is offered twice: to a node that does not know the sealing node, and to a node that trusts it
+	// (trust exempts a sealer's vertices from the accounting test, never from authentication)
+	for pass, cs := range []bool{false, true, false, true} {
+		if pass == 2 {
+			if err := w.ab.AddTrustedNode(w.s.Address()); err != nil {
+				fatal("trust: %v", err)
+			}
+		}
+		v := w.honest(cs, fmt.Sprint(cs, pass))
+		other := w.honest(cs, "other"+fmt.Sprint(cs, pass))
 		each := func(abs, kind string, f func(m *accountant.Vertex)) {
 			m := v
 			m.Signature = append([]byte{}, v.Signature...)
